@@ -19,6 +19,18 @@
 (*                   eaten by the junk-tolerant line read (`junk`).                                   *)
 (*   SpinOnError     a tunnel pump leaves its loop only on io.EOF; any other read error (the relay's  *)
 (*                   own Close of that connection, ECONNRESET) makes it spin for ever.               *)
+(* Behaviours of the code that violate the properties below and are therefore kept out of the       *)
+(* must-hold configurations by an environment constant (each is exercised by its own configuration   *)
+(* and steered onto the real relay by checks/x03.py):                                                *)
+(*   Window = TRUE   stdinBuffer / stdoutBuffer are shared by the in-band and the tunnel pumps and   *)
+(*                   the route is chosen at flush time: an in-band chunk parked after the tunnel's   *)
+(*                   ACT but before tunnelConnected.Store(true) is flushed into the tunnel           *)
+(*                   (InbandIgnoredWhileTunnel); parked in-band server output goes to the client's   *)
+(*                   tunnel connection when the transfer is refused.                                 *)
+(*   LateOK = TRUE   a handler whose greeting completes after the transfer's reset wins the CAS on   *)
+(*                   nil in standby (ResetClean, BoundIsCurrent when it also overtakes the clears).  *)
+(*   TunPumpsAtRest  (timing assumption, see below) a tunnel pump stalled across a whole transfer    *)
+(*                   still holds the relay pointer it loaded and parks into the next handshake.      *)
 EXTENDS Integers, Sequences, SequencesExt, FiniteSets, TLC
 
 CONSTANTS CliChunks,   \* in-band: chunks the client side feeds into clientIn
